@@ -15,6 +15,7 @@ import (
 	"go/types"
 	"math/big"
 	"sort"
+	"strconv"
 	"strings"
 
 	"golang.org/x/tools/go/ssa"
@@ -269,6 +270,7 @@ func (rg *Range) valueAxioms(name string, v ssa.Value) {
 				// q = x / e with e a positive atom: q >= 0 when x >= 0; (q*e <= x) is used by the product rule
 				if xl, ok := rg.lin(x.X); ok && rg.nonneg(xl) && rg.positive(yl) {
 					rg.axiom(a)
+					rg.axiom(xl.minus(a)) // q <= x since e >= 1
 				}
 			}
 		case token.SHR:
@@ -310,6 +312,25 @@ func (rg *Range) lenAxiomsTerm(name string, t *Term, v ssa.Value) {
 	eq := func(l Lin) {
 		rg.axiom(a.minus(l))
 		rg.axiom(l.minus(a))
+	}
+	// a buffer described by its allocation: its length is the allocation's
+	// length term (the same term names the same quantity wherever it occurs)
+	if t.Op == "make" && len(t.Args) >= 1 {
+		n := t.Args[0]
+		if n.Op == "const" {
+			if k, err := strconv.ParseInt(n.Name, 10, 64); err == nil {
+				eq(linConst(k))
+				return
+			}
+		} else {
+			nm := n.String()
+			if _, ok := rg.atoms[nm]; !ok {
+				rg.atoms[nm] = n.Src
+				rg.axiom(linAtom(nm)) // a length that was allocated is >= 0
+			}
+			eq(linAtom(nm))
+			return
+		}
 	}
 	// concatenations: the sum of the parts
 	if t.Op == "cat" {
@@ -1170,6 +1191,40 @@ func (rg *Range) calleeSuccess(f *ssa.Function, call *ssa.Call) []Lin {
 				}
 			}
 		}
+		// lengths of slice results: len(result_i) == the callee's length form
+		for i, rv := range rp.Vals {
+			if !isSliceOrString(rv.Type()) {
+				continue
+			}
+			var resVal ssa.Value
+			if len(rp.Vals) == 1 {
+				resVal = call
+			} else if refs := call.Referrers(); refs != nil {
+				for _, r := range *refs {
+					if ex, ok := r.(*ssa.Extract); ok && ex.Index == i {
+						resVal = ex
+					}
+				}
+			}
+			if resVal == nil {
+				continue
+			}
+			l := crg.lenOf(rv)
+			local := false
+			calleeTag := shortName(f)
+			for at := range l.c {
+				if strings.Contains(at, "opaque:"+calleeTag+"#") || strings.Contains(at, "@"+calleeTag+">") || strings.Contains(at, "alloc<") {
+					local = true
+				}
+			}
+			if local {
+				continue
+			}
+			ra := rg.lenAtom(resVal)
+			for _, e := range []Lin{ra.minus(l), l.minus(ra)} {
+				cur[e.String()] = e
+			}
+		}
 		if common == nil {
 			common = cur
 		} else {
@@ -1223,8 +1278,19 @@ func (rg *Range) lenOfTermField(t *Term, fld string) (Lin, bool) {
 	case "list":
 		return linConst(int64(len(x.Args))), true
 	case "make":
-		if len(x.Args) > 0 && x.Args[0].Src != nil {
-			return rg.lin(x.Args[0].Src)
+		if len(x.Args) > 0 {
+			if src := x.Args[0].Src; src != nil {
+				if in, ok := src.(ssa.Instruction); !ok || in.Parent() == rg.fn {
+					return rg.lin(src)
+				}
+			}
+			// allocated in an inlined helper: the length term names the quantity
+			nm := x.Args[0].String()
+			if _, ok := rg.atoms[nm]; !ok {
+				rg.atoms[nm] = x.Args[0].Src
+				rg.axiom(linAtom(nm))
+			}
+			return linAtom(nm), true
 		}
 	}
 	if x.Src != nil {
